@@ -19,25 +19,44 @@ def apiOk (s : St) : Api → Bool
   | .timerUnregister t => decide (t < s.heap.idx.size)
   | .taskRegister k | .taskUnregister k | .taskInit k => decide (1 ≤ k)
   | .rawRegister r _ | .rawUnregister r => decide (1 ≤ r) && decide (r < 1000)
+  | .evPost e => (s.evs e).registered        -- posting to an unregistered event is invalid use
   | _ => true
 
 /-- kernel contract K1 on a wait result: only entries of the current interest set are reported
-(descriptors the library asked for, the kick entry if registered, the kernel timer if created) -/
+(descriptors the library asked for, the kick entry if registered, the kernel timer if created),
+each descriptor at most once -/
+def wretFds (l : List WItem) : List FdId :=
+  l.filterMap fun it => match it with | .fd f _ => some f | _ => none
+
 def wretOk (s : St) : WRes → Bool
-  | .events l => l.all fun it =>
+  | .events l =>
+    (l.all fun it =>
       match it with
       | .fd f _ => if s.method.isEpoll then (s.kint f).isSome else s.pfds.any (·.1 == f)
       | .kick => s.kickReg
-      | .ktimer => s.timerfd
+      | .ktimer => s.timerfd) &&
+    decide (wretFds l).Nodup          -- each descriptor is reported at most once per wait
   | _ => true
 
-/-- what the environment (user program, kernel, clock) may do in state `s` -/
+/-- the object is not registered with the library (so the user owns its memory) -/
+def unregisteredObj (s : St) (kind id : Nat) : Bool :=
+  match kind with
+  | 0 => decide (id < 1000) && !(s.fds id).registered
+  | 1 => s.heap.idx.getD id (-1) == -1
+  | 2 => decide (1 ≤ id) && !taskOnList s id
+  | 3 => !(s.evs id).registered
+  | _ => decide (1 ≤ id) && !(s.raws id).registered
+
+/-- what the environment (user program, kernel, clock) may do in state `s`: valid API use, the kernel
+contract on wait results, a normalised monotone clock, posts only to registered events, and freeing /
+re-initialising only objects that are not registered -/
 def envOk (s : St) : Input → Bool
   | .api a => apiOk s a
   | .wret r => wretOk s r
-  | .time t => decide (0 ≤ t.sec) && decide (0 ≤ t.nsec) && decide (t.nsec < 1000000000)
-  | .free kind id => if kind == 2 then decide (1 ≤ id) else if kind == 4 then decide (1 ≤ id) else true
-  | .init kind id => if kind == 2 then decide (1 ≤ id) else if kind == 4 then decide (1 ≤ id) else true
+  | .time t => decide (0 ≤ t.sec) && decide (0 ≤ t.nsec) && decide (t.nsec < 1000000000) && !(s.time.gt t)
+  | .xpost e => (s.evs e).registered
+  | .free kind id => unregisteredObj s kind id
+  | .init kind id => unregisteredObj s kind id
   | _ => true
 
 /-- `Exec s evs s'`: starting in `s` the machine can produce exactly the records `evs` (inputs
